@@ -133,6 +133,16 @@ def sval(prog, fn, t, depth=0):
             return [("call", c, t[2], fn.path, t[3], tuple(g for g in (t[4] if len(t) > 4 else ()) if not g.startswith("'")))]
         if last in ("unwrap_or",) and len(t[2]) == 2:
             return [("alt", [sval(prog, fn, t[2][0], depth + 1), sval(prog, fn, t[2][1], depth + 1)])]
+        if c.endswith("String::new") and not t[2]:
+            return [("lit", "")]
+        if last in ("collect", "from_iter", "concat") and t[2]:
+            it = strip(t[2][0])
+            if it[0] == "call" and it[1].rsplit("::", 1)[-1] == "map" and len(it[2]) == 2:
+                cl = strip(it[2][1])
+                if cl[0] == "agg" and cl[1][0] == "closure" and cl[1][1] in prog.fns:
+                    # the concatenation of the closure's string for every element: one instance, like a loop body
+                    elem = ("ok", ("call", "<I as std::iter::Iterator>::next", (it[2][0],), -1))
+                    return [("call", cl[1][1], (cl, elem), fn.path, t[3], ())]
         if last == "replace" and "str" in c:
             # x.replace(a, b): keep as a value with the replace chain visible in its tree
             return [("val", t, "display", {"flags": None, "width": None, "prec": None, "arg": 0, "width_arg": False, "prec_arg": False}, fn.path)]
@@ -148,13 +158,55 @@ def _string_builder_local(fn):
     cands = collections.Counter()
     for bi, t in fn.calls(lambda c, t: c.endswith("AddAssign<&str>>::add_assign") or c.endswith("String::push_str")):
         p = op_place(t["args"][0])
-        if p is None:
-            continue
-        # &mut _x
-        ds = fn.whole_defs(p["local"])
-        if len(ds) == 1 and ds[0][0] == "stmt" and ds[0][1]["k"] == "ref":
-            cands[ds[0][1]["place"]["local"]] += 1
+        for _ in range(6):
+            if p is None:
+                break
+            # &mut _x, possibly re-borrowed / passed to an inlined helper
+            ds = fn.whole_defs(p["local"])
+            if len(ds) == 1 and ds[0][0] == "stmt" and ds[0][1]["k"] == "ref" and not [e for e in ds[0][1]["place"]["proj"] if e["k"] != "deref"]:
+                inner = ds[0][1]["place"]
+                d2 = fn.whole_defs(inner["local"])
+                if inner["proj"] and len(d2) == 1 and d2[0][0] == "stmt" and d2[0][1]["k"] in ("ref", "use"):
+                    p = inner
+                    continue
+                cands[inner["local"]] += 1
+                break
+            if len(ds) == 1 and ds[0][0] == "stmt" and ds[0][1]["k"] == "use":
+                p = op_place(ds[0][1]["op"])
+                continue
+            break
     return [l for l, _ in cands.most_common()]
+
+
+def _builder_of(fn, op, builders, hops=0):
+    """the string-builder local an operand is a view of (`&inner`, `&*inner`, `inner.as_str()`), else None"""
+    pl = op_place(op)
+    for _ in range(10):
+        if pl is None:
+            return None
+        n = pl["local"]
+        if n in builders and all(e["k"] == "deref" for e in pl["proj"]):
+            return n
+        ds = fn.whole_defs(n)
+        if len(ds) != 1 or len(fn.defs().get(n, [])) != 1:
+            return None
+        kind, payload = ds[0][0], ds[0][1]
+        if kind == "stmt":
+            if payload["k"] == "ref":
+                pl = payload["place"]
+            elif payload["k"] == "use":
+                pl = op_place(payload["op"])
+            elif payload["k"] == "cast":
+                pl = op_place(payload["a"])
+            else:
+                return None
+        else:
+            c = callee_of(payload)
+            if c.rsplit("::", 1)[-1] in ("deref", "as_str", "borrow", "as_ref", "deref_mut") and payload["args"]:
+                pl = op_place(payload["args"][0])
+            else:
+                return None
+    return None
 
 
 def emissions(prog, fn):
@@ -171,22 +223,76 @@ def emissions(prog, fn):
         if r[0] == "agg" and r[1][0] == "adt" and r[1][2] == "Ok":
             r = r[2][0]
         return sval(prog, fn, r if r is not ret else ret)
-    toks = []
-    main = builders[0]
-    # initial value
-    init = [d for d in fn.whole_defs(main)]
-    for kind, payload, bi, si, place in init:
-        t = R._call(payload, bi, 0, frozenset()) if kind == "call" else R.rvalue(payload)
-        st = strip(t)
-        if st[0] == "call" and st[1].endswith("String::new"):
-            continue
-        toks.append((order.get(bi, 0), -1, sval(prog, fn, t)))
+    import bytesview
+    bset = set(builders)
+    pushes = {b: [] for b in builders}
+    nested = set()
     for bi, t in fn.calls(lambda c, t: c.endswith("AddAssign<&str>>::add_assign") or c.endswith("String::push_str")):
-        p = op_place(t["args"][0])
-        ds = fn.whole_defs(p["local"]) if p else []
-        if not (len(ds) == 1 and ds[0][0] == "stmt" and ds[0][1]["k"] == "ref" and ds[0][1]["place"]["local"] == main):
+        tgt = _builder_of(fn, t["args"][0], bset)
+        if tgt is None:
             continue
-        toks.append((order.get(bi, 0), bi, sval(prog, fn, R.operand(t["args"][1]))))
+        src = _builder_of(fn, t["args"][1], bset)
+        if src is not None and src != tgt:
+            nested.add(src)
+        pushes[tgt].append((order.get(bi, 0), bi, t, src))
+
+    foreach = {b: [] for b in builders}
+    for bi, t in fn.calls(lambda c, t: c.rsplit("::", 1)[-1] == "for_each" and len(t["args"]) == 2):
+        cl = strip(R.operand(t["args"][1]))
+        if not (cl[0] == "agg" and cl[1][0] == "closure" and cl[1][1] in prog.fns):
+            continue
+        # which builder does the closure capture mutably?
+        pcl = op_place(t["args"][1])
+        dcl = fn.whole_defs(pcl["local"]) if pcl is not None and not pcl["proj"] else []
+        tgt = None
+        if len(dcl) == 1 and dcl[0][0] == "stmt" and dcl[0][1]["k"] == "aggregate":
+            for o in dcl[0][1]["ops"]:
+                b_ = _builder_of(fn, o, bset)
+                if b_ is not None:
+                    tgt = b_
+        if tgt is None:
+            continue
+        elem = ("ok", ("call", "<I as std::iter::Iterator>::next", (R.operand(t["args"][0]),), -1))
+        foreach[tgt].append((order.get(bi, 0), bi, [("call", "foreach:" + cl[1][1], (cl, elem), fn.path, bi, ())]))
+
+    def tokens_of(b, seen=()):
+        toks = list(foreach.get(b, []))
+        for kind, payload, bi, si, place in fn.whole_defs(b):
+            t = R._call(payload, bi, 0, frozenset()) if kind == "call" else R.rvalue(payload)
+            st = strip(t)
+            if st[0] == "call" and st[1].endswith("String::new"):
+                continue
+            toks.append((order.get(bi, 0), -1, sval(prog, fn, t)))
+        for o, bi, t, src in pushes[b]:
+            if src is not None and src not in seen:
+                toks.append((o, bi, tokens_of(src, seen + (b,))))
+                continue
+            # a push inside `for (tag, value) in [(..), (..)]` over a literal table stands for one push per element
+            seq = []
+            for (inst,) in bytesview.table_instances([R.operand(t["args"][1])]):
+                seq.extend(sval(prog, fn, inst))
+            toks.append((o, bi, seq))
+        toks.sort(key=lambda x: (x[0], x[1]))
+        out = []
+        for _, _, tl in toks:
+            out.extend(tl)
+        return out
+    roots = [b for b in builders if b not in nested]
+    main = roots[0] if roots else builders[0]
+    return tokens_of(main)
+
+
+def _captured_builder_pushes(prog, g):
+    """closure body that appends to a captured `&mut String`: the tokens it appends (None when it does not)"""
+    R = Resolver(g)
+    order = {b: i for i, b in enumerate(rpo(g.cfg(), 0))}
+    toks = []
+    for bi, t in g.calls(lambda c, t: c.endswith("AddAssign<&str>>::add_assign") or c.endswith("String::push_str")):
+        tgt = strip(R.operand(t["args"][0]))
+        if tgt[0] == "field" and strip(tgt[1]) == ("param", 1):
+            toks.append((order.get(bi, 0), bi, sval(prog, g, R.operand(t["args"][1]))))
+    if not toks:
+        return None
     toks.sort(key=lambda x: (x[0], x[1]))
     out = []
     for _, _, tl in toks:
@@ -221,12 +327,24 @@ def expand(prog, fn, toks, subst=None, depth=0, stack=()):
                 out.extend(expand(prog, fn, alt, subst, depth, stack))
         elif tk[0] == "call":
             c, args = tk[1], [substitute(a, subst) for a in tk[2]]
+            is_foreach = c.startswith("foreach:")
+            if is_foreach:
+                c = c[len("foreach:"):]
             if depth > 6 or c in stack:
                 out.append(("val", ("call", c, tuple(args), 0), "display", None, tk[3]))
                 continue
             g = prog.fns[c]
             sub2 = {("param", i + 1): a for i, a in enumerate(args)}
-            inner = expand(prog, g, emissions(prog, g), sub2, depth + 1, stack + (c,))
+            if g.kind == "Closure" and args and strip(args[0])[0] == "agg" and strip(args[0])[1][0] == "closure":
+                import names as nm
+                ops = strip(args[0])[2]
+                for capname, idx in nm._capture_index(g).items():
+                    if idx < len(ops):
+                        sub2[("field", ("param", 1), capname)] = ops[idx]
+            body = _captured_builder_pushes(prog, g) if is_foreach else emissions(prog, g)
+            if body is None:
+                raise CannotInterpret("for_each closure %s does not append to the captured string" % c)
+            inner = expand(prog, g, body, sub2, depth + 1, stack + (c,))
             gen = tk[5] if len(tk) > 5 else ()
             if gen:
                 fixed = []
